@@ -137,6 +137,17 @@ CHECKS = {
             'Trusted: refauto() in vf/props/c03.py. Order of key vs value evaluation for T/Spec dict keys not asserted. '
             'Bounds: depth <= 4, width <= 3.',
             'DESIGN.md section 4 / C03'),
+    'C04': ('exhaustive itertools enumeration of (exception catalogue + glom-detected failures) x wrapper x default x skip_exc x '
+            'glom_debug for nesting depth <= 1; Hypothesis-generated deeper nestings, re-entrant nestings (fault raised '
+            'inside nested glom / Spec.glom / Glommer.glom / first(key=) calls) and same-named-class histories',
+            'Fault enumeration with an executable oracle taken from the statement: class and args preserved, GlomError-ness '
+            'exactly when the class can be rebuilt from its args, documented class for glom-detected failures, default '
+            'object returned (identity) exactly when the error matches the effective skip_exc at its origin, BaseExceptions '
+            'propagate as the same object, glom_debug propagates the original object; str() of the raised error must work.',
+            'Trusted: judge() in vf/props/c04.py. Exceptions raised by registered accessors inside a path step are '
+            'PathAccessErrors by C01 and are not fault sites here; StopIteration crossing a generator frame is Python\'s '
+            'PEP 479 and excluded. Bounds: nesting depth <= 4, re-entrancy depth <= 3.',
+            'DESIGN.md section 4 / C04'),
 }
 
 NOT_YET = 'check not built yet in this session (design in DESIGN.md section 4); will be claimed once its check is quiet on the unchanged tree'
